@@ -210,7 +210,7 @@ def pinHolds (T : Tables) (p : Label × Pinned.Kind × Nat × Option Res) : Bool
       (match p.2.2.2 with | none => true | some r => f.res = r)
   | none => false
 
-/-- **The data-field table reads the pinned fields the way the standards do** (131 fields of
+/-- **The data-field table reads the pinned fields the way the standards do** (the 498 numeric fields of
     RTCM 10403.3 / IGS SSR v1: unsigned, two's complement or — GLONASS ephemeris only —
     sign-magnitude; width; resolution where pinned).  One-directional: what is pinned must be so. -/
 theorem C03_field_kinds_pinned : (Pinned.fieldKinds.all (pinHolds T)) = true := by decide +kernel
